@@ -563,6 +563,7 @@ struct Cx {
     exh: usize,        // streams up to this many bytes get all cut sets
     long_streams: u64, // longer streams per protocol
     cover_streams: u64, // streams of 4 messages drawn so that every message kind shows up
+    broken: u64,        // streams abandoned after an error / starvation (each costs a timeout)
     big: bool,         // include streams spanning several 64 KiB segments
     rt: tokio::runtime::Runtime,
     stats: HashMap<String, u64>,
@@ -778,7 +779,7 @@ async fn old_cutset<M: Fragment>(s: &Stream, segs: &[usize], ev: &mut Vec<Value>
     let bytes = s.bytes();
     let mut fed = 0usize;
     let mut delivered = 0usize;
-    let patience = Duration::from_secs(20);
+    let patience = Duration::from_secs(10);
     let mut broken = false;
     'segs: for n in segs {
         let seg = bytes[fed..fed + n].to_vec();
@@ -834,6 +835,9 @@ async fn old_cutset<M: Fragment>(s: &Stream, segs: &[usize], ev: &mut Vec<Value>
 }
 
 fn old_proto<M: Fragment + Debug + Gen>(cx: &mut Cx, proto: &str) {
+    if cx.broken >= 8 {
+        return;
+    }
     // (messages, size class, max bytes, coverage stream?)
     let mut plan: Vec<(usize, u8, usize, bool)> = vec![(3, 0, cx.exh, false)];
     for _ in 0..cx.cover_streams {
@@ -875,9 +879,18 @@ fn old_proto<M: Fragment + Debug + Gen>(cx: &mut Cx, proto: &str) {
             let segs = segs_of(s.total(), cuts);
             let mut ev = vec![json!({"ev": "cuts", "sid": sid, "k": k})];
             cx.rt.block_on(old_cutset::<M>(&s, &segs, &mut ev));
+            let bad = ev.iter().any(|e| matches!(e["ev"].as_str(), Some("starved") | Some("error") | Some("extra")));
             for e in ev {
                 cx.out.ev(e);
             }
+            if bad {
+                // TLC rejects this stream at that event; the remaining cut sets would only cost time-outs
+                cx.broken += 1;
+                break;
+            }
+        }
+        if cx.broken >= 8 {
+            return; // the check handles at most that many rejections per run
         }
         bump(cx, "old_streams", 1);
         bump(cx, "old_cutsets", sets.len() as u64);
@@ -944,7 +957,7 @@ async fn new_sock(chans: &[u16], streams: &[&Stream], segs: &[Vec<usize>], mode:
             ev.push(json!({"ev": "error", "at": "write_segment", "err": e.to_string()}));
             return;
         }
-        match tokio::time::timeout(Duration::from_secs(20), r.read_full_msgs::<AnyMessage>(&mut partial)).await {
+        match tokio::time::timeout(Duration::from_secs(10), r.read_full_msgs::<AnyMessage>(&mut partial)).await {
             Ok(Ok(msgs)) => {
                 // messages are attributed to the channel they claim to belong to
                 let mut outs: Vec<Vec<i64>> = vec![vec![]; streams.len()];
@@ -983,6 +996,9 @@ async fn new_sock(chans: &[u16], streams: &[&Stream], segs: &[Vec<usize>], mode:
 }
 
 fn new_proto(cx: &mut Cx, idx: usize) {
+    if cx.broken >= 8 {
+        return;
+    }
     let (proto, chan) = N2_PROTOS[idx];
     let mut plan: Vec<(usize, u8, usize, bool)> = vec![(3, 0, cx.exh, false)];
     for _ in 0..cx.cover_streams {
@@ -1056,10 +1072,18 @@ fn new_proto(cx: &mut Cx, idx: usize) {
                 let mut r = Rng::new(cx.rng.next_u64());
                 cx.rt.block_on(new_sock(&[chan], &[&s], &[segs], mode, &mut r, &mut ev));
             }
+            let bad = ev.iter().any(|e| matches!(e["ev"].as_str(), Some("starved") | Some("error")));
             for e in ev {
                 cx.out.ev(e);
             }
             nsock += 1;
+            if bad {
+                cx.broken += 1;
+                break;
+            }
+        }
+        if cx.broken >= 8 {
+            return;
         }
         bump(cx, "sock_streams", 1);
         bump(cx, "sock_cutsets", nsock);
@@ -1116,6 +1140,7 @@ pub fn trace(args: &Args) {
         exh: args.num("exh", 7) as usize,
         long_streams: args.num("long", 1),
         cover_streams: args.num("cover", 3),
+        broken: 0,
         big: args.num("big", 1) == 1,
         rt,
         stats: HashMap::new(),
